@@ -22,7 +22,8 @@ RULE = ("one run = one bring-up of the real manager process for one configuratio
         "fails} x reported mode {bootloader, signer, ui-heartbeat, 0xFF, undefined byte} x UI / signer "
         "version triples (grid around 5.4.1 + random) x retries {0,1,2,3,255, exchange fails} x echo "
         "{ok, altered} x unlock {accepted, refused} x new PIN {accepted, refused, error} x (SGX, a quarter "
-        "of the runs) another version while locked than after the unlock x mode after "
+        "of the runs) another version while locked than after the unlock x (SGX, one run in six) another mode "
+        "than signer reported after the unlock x mode after "
         "EXIT {signer, bootloader, ui-heartbeat, gone longer than the wait} x (seeded, one run in five) "
         "one link fault or error status at one of the first 14 exchanges, or (one in eight) the operator's "
         "Ctrl-C at one of the first 40 seams; enumerated: the full "
@@ -107,6 +108,10 @@ def run_one(ch, cfg):
             c["ui_version"] = c["signer_version"]
         if c["mode"] == "ui-heartbeat":
             c["mode"] = "bootloader"
+        # post-unlock mode on SGX (seeded, one run in six): what the enclave reports once unlocked
+        pu = ch.draw(6, "sgx.post-unlock-mode")
+        if pu == 1 and c["mode"] == "bootloader":
+            c["sgx_post_unlock"] = ch.pick(["bootloader", "ui-heartbeat", "unknown"], "sgx.post-unlock.which")
     devpin = b"devpin7x"
     modebyte = {"bootloader": L.MODE_BOOTLOADER, "signer": L.MODE_SIGNER,
                 "ui-heartbeat": L.MODE_UI_HEARTBEAT, "unknown": 0xFF, "other": 0x07}[c["mode"]]
@@ -121,6 +126,9 @@ def run_one(ch, cfg):
     if plat == "sgx":
         dcfg["two_versions"] = two_versions
         dcfg["locked"] = c["mode"] == "bootloader"
+        if c.get("sgx_post_unlock"):
+            dcfg["mode_byte_unlocked"] = {"bootloader": L.MODE_BOOTLOADER, "ui-heartbeat": L.MODE_UI_HEARTBEAT,
+                                          "unknown": 0xFF}[c["sgx_post_unlock"]]
         if c["mode"] in ("unknown", "other"):
             dcfg["locked"] = ch.draw(2, "sgx.locked") == 0
             dcfg["mode_byte"] = modebyte
@@ -291,6 +299,8 @@ def _why_not_serve(c):
             return "pin-change"
         if c["platform"] != "sgx" and c["post_exit"] != "signer":
             return "post-exit-" + c["post_exit"]
+        if c["platform"] == "sgx" and c.get("sgx_post_unlock"):
+            return "post-unlock-" + c["sgx_post_unlock"]
         return "signer-version"
     if c["mode"] != "signer":
         return "mode-" + c["mode"]
@@ -312,7 +322,7 @@ class _Enum:
             # order of draws in run_one
             # trailing zeros: the seeded-only dimensions stay at their simplest value (one version on
             # SGX, device present, first delay / silence kind), so the case is exactly the listed one
-            self.items.append([0, plat, mode, pinf, onb, ret, echo, unl, pe, npn, 0, 0] + [0] * 8)
+            self.items.append([0, plat, mode, pinf, onb, ret, echo, unl, pe, npn, 0, 0] + [0] * 10)
         if tier == "quick":
             # quick: a deterministic 1-in-8 slice of the product (the seeded part covers the rest)
             self.items = self.items[::8]
